@@ -7,6 +7,7 @@ package interp
 
 import (
 	"fmt"
+	"go/token"
 	"go/types"
 	"reflect"
 	"strconv"
@@ -28,6 +29,10 @@ func init() {
 		"fmt.Print":                             extPrint,
 		"fmt.Sprint":                            extSprint,
 		"fmt.Sprintln":                          extSprintln,
+		"fmt.Errorf":                            extErrorf,
+		"fmt.Fprintf":                           extFprintf,
+		"fmt.Fprintln":                          extFprintln,
+		"fmt.Fprint":                            extFprint,
 		"os.ReadFile":                           extReadFile,
 		"os.WriteFile":                          extWriteFile,
 		"os.Exit":                               extExit,
@@ -77,11 +82,22 @@ func init() {
 		"github.com/google/go-cmp/cmp/cmpopts.EquateEmpty": func(fr *frame, args []value) value {
 			return iface{t: types.Typ[types.Int], v: cmpOpt{"equate-empty"}}
 		},
-		"internal/bytealg.IndexByteString": extIndexByteString,
-		"internal/bytealg.CountString":     extCountString,
-		"strings.Index":                    extStringsIndex,
-		"strings.IndexByte":                extIndexByteString,
-		"strings.Count":                    extStringsCount,
+		"internal/bytealg.IndexByteString":          extIndexByteString,
+		"internal/bytealg.IndexByte":                bytesAsString(extIndexByteString, 0),
+		"internal/bytealg.Count":                    bytesAsString(extCountString, 0),
+		"internal/bytealg.Compare":                  bytesAsString(extCompareString, 0, 1),
+		"internal/bytealg.CompareString":            extCompareString,
+		"internal/bytealg.abigen_runtime_cmpstring": extCompareString,
+		"strings.Compare":                           extCompareString,
+		"bytes.Compare":                             bytesAsString(extCompareString, 0, 1),
+		"bytes.Index":                               bytesAsString(extStringsIndex, 0, 1),
+		"bytes.Contains":                            bytesAsString(extStringsContains, 0, 1),
+		"bytes.IndexByte":                           bytesAsString(extIndexByteString, 0),
+		"bytes.Count":                               bytesAsString(extStringsCount, 0, 1),
+		"internal/bytealg.CountString":              extCountString,
+		"strings.Index":                             extStringsIndex,
+		"strings.IndexByte":                         extIndexByteString,
+		"strings.Count":                             extStringsCount,
 		"strings.LastIndex": func(fr *frame, args []value) value {
 			i := fr.i
 			s, sep := args[0], args[1]
@@ -591,6 +607,54 @@ func extPrint(fr *frame, args []value) value {
 	return tuple{strLen(s), iface{}}
 }
 
+// fmt.Errorf: an *errors.errorString (through the real errors.New) holding the formatted text
+func extErrorf(fr *frame, args []value) value {
+	s := fr.i.sprintf(fr, args[0], variadic(args[1]))
+	if ep := fr.i.prog.ImportedPackage("errors"); ep != nil && ep.Func("New") != nil {
+		return callSSA(fr.i, fr, token.NoPos, ep.Func("New"), []value{s}, nil)
+	}
+	return iface{t: fr.i.runtimeErrorString, v: s}
+}
+
+// writeTo: fmt.Fprint* on the writers the engine knows (virtual files and
+// standard streams, bytes.Buffer, strings.Builder), else through the
+// writer's own Write method.
+func (i *interpreter) writeTo(fr *frame, w value, s value) value {
+	wi, _ := w.(iface)
+	if wi.t == nil {
+		panic(rtPanic("runtime error: invalid memory address or nil pointer dereference"))
+	}
+	if p, ok := wi.v.(*value); ok && p != nil {
+		switch x := (*p).(type) {
+		case *osFile:
+			return i.fileWrite(x, s)
+		case structure:
+			if n, ok := deref(wi.t).(*types.Named); ok && n.Obj().Pkg() != nil {
+				if q := n.Obj().Pkg().Path() + "." + n.Obj().Name(); q == "bytes.Buffer" || q == "strings.Builder" {
+					return extBufWriteString(fr, []value{wi.v, s})
+				}
+			}
+		}
+	}
+	if sel := i.prog.MethodSets.MethodSet(wi.t).Lookup(nil, "Write"); sel != nil {
+		if m := i.prog.MethodValue(sel); m != nil {
+			data := conv(i, types.NewSlice(types.Typ[types.Byte]), types.Typ[types.String], s)
+			return callSSA(i, fr, token.NoPos, m, []value{wi.v, data}, nil)
+		}
+	}
+	panic(pathAbort{"unsupported", "fmt.Fprint* on " + wi.t.String()})
+}
+
+func extFprintf(fr *frame, args []value) value {
+	return fr.i.writeTo(fr, args[0], fr.i.sprintf(fr, args[1], variadic(args[2])))
+}
+func extFprintln(fr *frame, args []value) value {
+	return fr.i.writeTo(fr, args[0], fr.i.sprint(fr, variadic(args[1]), true))
+}
+func extFprint(fr *frame, args []value) value {
+	return fr.i.writeTo(fr, args[0], fr.i.sprint(fr, variadic(args[1]), false))
+}
+
 // ---------------------------------------------------------------- os
 
 func (i *interpreter) errValue(msg string) value {
@@ -647,6 +711,7 @@ type osFile struct {
 	app    bool
 	closed bool
 	rec    int // index of this handle's record in ps.writes
+	std    int // 1 stdout, 2 stderr: appends to the captured stream instead
 }
 
 func (i *interpreter) openFile(name value, flag int) value {
@@ -711,6 +776,14 @@ func (i *interpreter) fileWrite(f *osFile, data value) value {
 	n := strLen(data)
 	if f.closed {
 		return tuple{0, i.errValue("write " + i.showStr(f.name) + ": file already closed")}
+	}
+	switch f.std {
+	case 1:
+		i.ps.stdout = append(i.ps.stdout, data)
+		return tuple{n, iface{}}
+	case 2:
+		i.ps.stderr = append(i.ps.stderr, i.showStr(data))
+		return tuple{n, iface{}}
 	}
 	k := i.vfsFind(f.name)
 	if k < 0 {
@@ -1295,6 +1368,29 @@ func extIndexByteString(fr *frame, args []value) value {
 		}
 	}
 	return -1
+}
+
+// bytesAsString adapts a model written for strings to []byte arguments.
+func bytesAsString(f externalFn, which ...int) externalFn {
+	return func(fr *frame, args []value) value {
+		a := append([]value(nil), args...)
+		for _, k := range which {
+			a[k] = conv(fr.i, types.Typ[types.String], types.NewSlice(types.Typ[types.Byte]), a[k])
+		}
+		return f(fr, a)
+	}
+}
+
+// three-way lexicographic comparison (strings.Compare / bytes.Compare)
+func extCompareString(fr *frame, args []value) value {
+	i := fr.i
+	if i.ps.decide(i.strEq(args[0], args[1])) {
+		return 0
+	}
+	if i.ps.decide(i.strLess(args[0], args[1], false)) {
+		return -1
+	}
+	return 1
 }
 
 func extCountString(fr *frame, args []value) value {
